@@ -103,8 +103,10 @@ func runCell(base string, c Cell) *Result {
 	b, _ := json.Marshal(c)
 	cmd := exec.Command(os.Args[0], "-test.run", "^TestHostHelper$", "-test.timeout", "120s")
 	env := []string{"VHOST_CELL=" + string(b), "TMPDIR=" + hostTmp, "HOME=" + os.Getenv("HOME"), "PATH=" + os.Getenv("PATH"), "VERIF_HOST_MARKER=present"}
-	for k, v := range c.Ambient {
-		env = append(env, k+"="+v)
+	if !c.Host.AmbientInCmd {
+		for k, v := range c.Ambient {
+			env = append(env, k+"="+v)
+		}
 	}
 	cmd.Env = env
 	cmd.SysProcAttr = &syscall.SysProcAttr{Setpgid: true} // own process group: a hung cell can be killed with its children
